@@ -19,13 +19,14 @@ import (
 	"github.com/semihalev/sdns/zzverif/vlib"
 )
 
-const rule = "distinct_nontrivial = histories in which replies built from cached pieces were judged on at least two different routes/outcomes (exact msg/wire, chase msg/wire, cut msg/wire, proof, re-cached composition, expired-entry miss), plus concurrent Store histories with overlapping operations and both a successful and a refused ReplaceIfCurrent, plus gated-refresh scenario variants that completed; interleavings = distinct call/return event orders of the concurrent histories"
+const rule = "distinct_nontrivial = histories in which replies built from cached pieces were judged on at least two different routes/outcomes (exact msg/wire, chase msg/wire, cut msg/wire, proof, re-cached composition, expired-entry miss), plus concurrent Store histories with overlapping operations and both a successful and a refused ReplaceIfCurrent, plus gated-refresh scenario (intervention, claimed-entry fate) combinations that completed and were judged; interleavings = distinct call/return event orders of the concurrent histories"
 
 func main() {
 	r := vlib.Start("C04", "exploration")
 	r.Assume("virtual time = monotonic real time + sum of clock steps; a step shifts every stored instant of the cache middleware back (hooks/middleware/cache/zz_verif_clock.go) and happens only at quiescent points")
 	r.Assume("RRSIG validity windows are relative to the real clock at admission; the bound they impose is captured as a TTL at admission and aged by shifting")
 	r.Assume("sub-second errors are not judged: a reply is a violation only if observed after a1+L, a TTL only if above ceil(a1+L-o0)")
+	r.Assume("gated-refresh scenarios with an expiring claim step the clock while exactly one background refresh is parked inside the stub (harness code); no cache code runs during that step")
 	r.Assume("the stub stands in for the resolver: leases are attached through ResponseMeta.BoundCutFor, validated-denial provenance through MarkValidatedNegativeProofResponse; signatures are not cryptographically valid (the cache never checks them)")
 
 	if rc := r.ReplayCase(); rc != nil {
@@ -85,11 +86,24 @@ func parent(r *vlib.Run) {
 	r.Require("cas_histories_ok", int64(r.N(100, 2000)))
 	r.Require("cas_success", int64(r.N(200, 4000)))
 	r.Require("cas_refused", int64(r.N(200, 4000)))
-	r.Require("gate_scenarios", int64(r.N(30, 600)))
-	for v := 0; v < 4; v++ {
+	// lifetimes inside the concurrent histories: entries that run out mid-history
+	// and write-backs issued on a claim that had already run out
+	r.Require("cas_short_lived_writes", int64(r.N(2000, 40000)))
+	r.Require("cas_expired_claim_refused", int64(r.N(150, 3000)))
+	r.Require("gate_scenarios", int64(r.N(100, 2000)))
+	for v := 0; v < 7; v++ {
 		r.Require(fmt.Sprintf("gate_scenarios_variant%d", v), int64(r.N(5, 100)))
 	}
 	r.Require("gate_control_refresh_applied", int64(r.N(5, 100)))
+	// the claimed entry's fate while its refresh is in flight: still live, TTL
+	// ran out, delegation lease ran out — each must have been driven and judged
+	for _, f := range []string{"live", "ttl", "lease"} {
+		r.Require("gate_scenarios_claim_"+f, int64(r.N(20, 400)))
+	}
+	r.Require("gate_expired_claim_judged_ttl", int64(r.N(15, 300)))
+	r.Require("gate_expired_claim_judged_lease", int64(r.N(15, 300)))
+	r.Require("gate_newer_data_survived", int64(r.N(20, 400)))
+	r.Require("gate_newer_withdrawal_survived", int64(r.N(20, 400)))
 }
 
 func phaseHistories(r *vlib.Run) {
@@ -121,7 +135,7 @@ func phaseRace(r *vlib.Run) {
 		r.Progress("cas histories %d/%d", i+1, n)
 	}
 	c.Stop()
-	m := r.N(80, 1600)
+	m := r.N(144, 2880)
 	for i := 0; i < m; i++ {
 		runGateScenario(r, i)
 		r.Progress("gate scenarios %d/%d", i+1, m)
